@@ -214,4 +214,65 @@ func c06(p *an.Prog, r *an.R, tier string) {
 		r.Check(strings.Join(doc, ",") == strings.Join(acc, ","), "C06.R2", "values/"+rw.field, 0, fmt.Sprintf("documented %v == accepted %v", doc, acc), fmt.Sprintf("the documentation lists the values %v for %s but the parser accepts %v", doc, rw.field, acc))
 	}
 	r.Floor("C06.R2.enumerated-fields", 5, n)
+	c06Lower(p, r)
+}
+
+// c06Lower: case:auto decides by comparing a regexp with its lower-cased
+// copy; the lowering must reach the literals below every operator.
+func c06Lower(p *an.Prog, r *an.R) {
+	r.Rule("C06.R5", "LowerRegexp descends into the sub-expressions of every regexp operator that has them (explicit case or the default arm maps over Sub): otherwise an upper-case letter below that operator does not make case:auto case-sensitive")
+	d := p.Decl(p.Func("query", "LowerRegexp"))
+	syn := p.TPkgs["regexp/syntax"]
+	if !r.Anchor(d != nil && syn != nil, "query.LowerRegexp / regexp/syntax") {
+		return
+	}
+	r.Fn("query.LowerRegexp")
+	info := d.Pkg.TypesInfo
+	var sw *ast.SwitchStmt
+	ast.Inspect(d.Decl.Body, func(n ast.Node) bool {
+		if s, ok := n.(*ast.SwitchStmt); ok && sw == nil {
+			sw = s
+		}
+		return true
+	})
+	if !r.Anchor(sw != nil, "query.LowerRegexp/switch on Op") {
+		return
+	}
+	recurses := func(body []ast.Stmt) bool {
+		f := false
+		for _, st := range body {
+			ast.Inspect(st, func(m ast.Node) bool {
+				if se, ok := m.(*ast.SelectorExpr); ok && se.Sel.Name == "Sub" {
+					f = true
+				}
+				return true
+			})
+		}
+		return f
+	}
+	handled := map[string]bool{}
+	defaultRec := false
+	for _, c := range sw.Body.List {
+		cc := c.(*ast.CaseClause)
+		if cc.List == nil {
+			defaultRec = recurses(cc.Body)
+			continue
+		}
+		for _, e := range cc.List {
+			if se, ok := ast.Unparen(e).(*ast.SelectorExpr); ok {
+				if co, ok := info.Uses[se.Sel].(*types.Const); ok && recurses(cc.Body) {
+					handled[co.Name()] = true
+				} else if ok {
+					handled[co.Name()+"(no-recursion)"] = true
+				}
+			}
+		}
+	}
+	for _, op := range []string{"OpCapture", "OpStar", "OpPlus", "OpQuest", "OpRepeat", "OpConcat", "OpAlternate"} {
+		if !r.Anchor(syn.Scope().Lookup(op) != nil, "regexp/syntax."+op) {
+			continue
+		}
+		ok := handled[op] || (defaultRec && !handled[op+"(no-recursion)"])
+		r.Check(ok, "C06.R5", "query.LowerRegexp/descends-into/"+op, sw.Pos(), "sub-expressions of this operator are lower-cased too", "LowerRegexp does not descend into "+op+": a pattern whose only upper-case letters sit below that operator compares equal to its lowered copy and is searched case-insensitively under case:auto")
+	}
 }
